@@ -245,9 +245,9 @@ func TestVerifSchemaExport(t *testing.T) {
 				b.WriteString(", ")
 			}
 			nf++
-			fmt.Fprintf(&b, "[name |-> %s, go |-> %s, kind |-> %s, card |-> %s, target |-> %s, oneof |-> %s, oNS |-> %s, oBlob |-> %s, oSA |-> %s]",
+			fmt.Fprintf(&b, "[name |-> %s, go |-> %s, kind |-> %s, card |-> %s, target |-> %s, oneof |-> %s, oNS |-> %s, oBlob |-> %s, oSA |-> %s, oFail |-> %s]",
 				vscTLAString(f.Name), vscTLAString(f.Go), vscTLAString(f.Kind), vscTLAString(f.Card), vscTLAString(f.Target), vscTLAString(f.Oneof),
-				vscBool(f.NS), vscBool(f.Blob), vscBool(f.SA))
+				vscBool(f.NS), vscBool(f.Blob), vscBool(f.SA), vscBool(tn == "temporal.api.failure.v1.Failure" && f.Name == "message"))
 		}
 		b.WriteString(">>\n")
 	}
